@@ -12,3 +12,5 @@ for id in "$@"; do
 done
 git -C /repo checkout -- .
 git -C /repo status --porcelain
+# the harness was last built against the changed tree: rebuild it against the restored one
+(cd harness && cargo build --offline -q 2>&1 | grep -E "^error" | head -3)
